@@ -1062,6 +1062,12 @@ func (em *emitter) emitForRange(node *ast.ForRange) {
 	var indirectIndex, indirectElem int8
 	var indexType, elemType reflect.Type
 
+	// The instruction OpRange knows nothing about non-local variables too.
+	// If the index or the element is assigned to a non-local variable, it is
+	// stored into a register and then assigned to the variable before
+	// executing the instructions of the body.
+	nonLocalIndex, nonLocalElem := -1, -1
+
 	if len(vars) >= 1 && !isBlankIdentifier(vars[0]) {
 		name := vars[0].(*ast.Identifier).Name
 		indexType = em.typ(vars[0])
@@ -1074,8 +1080,13 @@ func (em *emitter) emitForRange(node *ast.ForRange) {
 			} else {
 				em.fb.bindVarReg(name, index)
 			}
-		} else {
+		} else if em.fb.declaredInFunc(name) {
 			index = em.fb.scopeLookup(name)
+		} else if i, ok := em.varStore.nonLocalVarIndex(vars[0].(*ast.Identifier)); ok {
+			index = em.fb.newRegister(reflect.Int)
+			nonLocalIndex = i
+		} else {
+			panic(internalError("unexpected"))
 		}
 	}
 
@@ -1091,8 +1102,13 @@ func (em *emitter) emitForRange(node *ast.ForRange) {
 			} else {
 				em.fb.bindVarReg(name, elem)
 			}
-		} else {
+		} else if em.fb.declaredInFunc(name) {
 			elem = em.fb.scopeLookup(name)
+		} else if i, ok := em.varStore.nonLocalVarIndex(vars[1].(*ast.Identifier)); ok {
+			elem = em.fb.newRegister(elemType.Kind())
+			nonLocalElem = i
+		} else {
+			panic(internalError("unexpected"))
 		}
 	}
 
@@ -1109,6 +1125,12 @@ func (em *emitter) emitForRange(node *ast.ForRange) {
 	}
 	if indirectElem != 0 {
 		em.changeRegister(false, elem, indirectElem, elemType, elemType)
+	}
+	if nonLocalIndex != -1 {
+		em.addressNonLocalVar(nonLocalIndex, indexType, vars[0].Pos(), ast.AssignmentSimple).assign(false, index, indexType)
+	}
+	if nonLocalElem != -1 {
+		em.addressNonLocalVar(nonLocalElem, elemType, vars[1].Pos(), ast.AssignmentSimple).assign(false, elem, elemType)
 	}
 
 	em.emitNodes(node.Body)
